@@ -11,6 +11,7 @@ import (
 	"sort"
 	"strings"
 
+	"github.com/Flowpack/prunner/store"
 	"github.com/Flowpack/prunner/zverif/vsched"
 )
 
@@ -166,6 +167,23 @@ func monStruct(f *Facts) []Violation {
 	return dedupV(vs)
 }
 
+var c13StoreOnce store.DataStore
+
+func c13Store() store.DataStore {
+	if c13StoreOnce == nil {
+		dir, err := os.MkdirTemp("", "verif-c13-")
+		if err != nil {
+			panic(err)
+		}
+		ds, err := store.NewJSONDataStore(dir)
+		if err != nil {
+			panic(err)
+		}
+		c13StoreOnce = ds
+	}
+	return c13StoreOnce
+}
+
 func c13Scenarios(tier string) []*Scenario {
 	type nop struct {
 		n  string
@@ -190,7 +208,15 @@ func c13Scenarios(tier string) []*Scenario {
 			Name: name,
 			Desc: "concurrent API callers against: job 1 finished (removable by retention), job 2 running, job 3 waiting, persist loop alive",
 			Opts: func() WorldOpts {
-				return WorldOpts{Defs: []*definitionPipelinesDef{mkDefs(map[string]PipeCfg{"p": cfg}), mkDefs(map[string]PipeCfg{"p": other})}, WithStore: true}
+				o := WorldOpts{Defs: []*definitionPipelinesDef{mkDefs(map[string]PipeCfg{"p": cfg}), mkDefs(map[string]PipeCfg{"p": other})}, WithStore: true}
+				for _, x := range sel {
+					if x.n == "save" {
+						// the real JSON store reads the snapshot after the runner lock has been released: that read must
+						// be visible to the race detector (the harness itself is not instrumented)
+						o.RealStore = c13Store()
+					}
+				}
+				return o
 			},
 			Prefix: prefix,
 			Setup: func(w *World) {
